@@ -1,8 +1,17 @@
 package main
 
 import (
+	"crypto/sha256"
+	"encoding/hex"
+	"encoding/json"
+	"flag"
 	"fmt"
 	"os"
+	"os/exec"
+	"path/filepath"
+	"sort"
+	"strconv"
+	"strings"
 	"time"
 
 	sdk "github.com/cosmos/cosmos-sdk/types"
@@ -18,27 +27,239 @@ func initSDKConfig() {
 	c.Seal()
 }
 
+// RunResult is what one simulated run reports.
+type RunResult struct {
+	Seed       uint64             `json:"seed"`
+	Profile    string             `json:"profile"`
+	Tier       string             `json:"tier"`
+	Blocks     int64              `json:"blocks"`
+	Counters   map[string]float64 `json:"counters"`
+	States     []uint64           `json:"states"`
+	Grams      []uint64           `json:"grams"`
+	Violations []Violation        `json:"violations"`
+	HarnessErr string             `json:"harness_err,omitempty"`
+	TraceHash  string             `json:"trace_hash"`
+	LogHash    string             `json:"log_hash"` // hash of (per-height app hashes + tx codes): determinism self-test
+	WallMs     int64              `json:"wall_ms"`
+	Sample     json.RawMessage    `json:"sample,omitempty"`
+	TracePath  string             `json:"trace_path,omitempty"`
+}
+
+func seedFor(base uint64, idx int) uint64 {
+	return base*0x9E3779B97F4A7C15 + uint64(idx)*0xD1B54A32D192ED03 + 0x2545F4914F6CDD1D
+}
+
+func runOne(seed uint64, profile, tier string, verbose bool, keepTrace bool) (*RunResult, *Sim) {
+	t0 := time.Now()
+	cfg := MakeConfig(seed, profile, tier)
+	cfg.Verbose = verbose
+	res := &RunResult{Seed: seed, Profile: profile, Tier: tier}
+	s, err := NewSim(seed, cfg, nil)
+	if err != nil {
+		res.HarnessErr = "boot: " + err.Error()
+		return res, nil
+	}
+	s.Run()
+	fillResult(res, s)
+	res.WallMs = time.Since(t0).Milliseconds()
+	return res, s
+}
+
+func fillResult(res *RunResult, s *Sim) {
+	res.Blocks = s.Height
+	res.Counters = s.Stats.C
+	for k := range s.Stats.States {
+		res.States = append(res.States, k)
+	}
+	for k := range s.Stats.Grams {
+		res.Grams = append(res.Grams, k)
+	}
+	sort.Slice(res.States, func(i, j int) bool { return res.States[i] < res.States[j] })
+	sort.Slice(res.Grams, func(i, j int) bool { return res.Grams[i] < res.Grams[j] })
+	res.Violations = s.Violations
+	res.HarnessErr = s.HarnessErr
+	res.TraceHash = traceHash(s.Trace)
+	h := sha256.New()
+	for _, x := range s.Hashes {
+		h.Write([]byte(x))
+	}
+	h.Write([]byte(s.codesLog.String()))
+	res.LogHash = hex.EncodeToString(h.Sum(nil))[:24]
+}
+
+func traceHash(t *Trace) string {
+	bz, _ := json.Marshal(t.Blocks)
+	x := sha256.Sum256(bz)
+	return hex.EncodeToString(x[:])[:24]
+}
+
+func abbreviateTrace(t *Trace, maxBlocks int) json.RawMessage {
+	type ab struct {
+		H      int      `json:"h"`
+		DtMs   int64    `json:"dt_ms"`
+		Faults []Fault  `json:"faults,omitempty"`
+		Txs    []string `json:"txs"`
+	}
+	var out []ab
+	for i, b := range t.Blocks {
+		if len(out) >= maxBlocks {
+			break
+		}
+		if len(b.Txs) == 0 && len(b.Faults) == 0 {
+			continue
+		}
+		a := ab{H: i + 1, DtMs: b.DtMs, Faults: b.Faults}
+		for _, tx := range b.Txs {
+			typ := "?"
+			if len(tx.MsgsJSON) > 0 {
+				var m map[string]any
+				_ = json.Unmarshal([]byte(tx.MsgsJSON[0]), &m)
+				typ, _ = m["@type"].(string)
+			}
+			a.Txs = append(a.Txs, fmt.Sprintf("%s gas=%d %s", shortType(typ), tx.Gas, tx.Tag))
+		}
+		out = append(out, a)
+	}
+	bz, _ := json.Marshal(out)
+	return bz
+}
+
 func main() {
 	initSDKConfig()
-	w := NewWorld(DefaultGenesisConfig())
-	t0 := time.Now()
-	n, err := NewNode("n0", NewSimDB(), nil)
+	if len(os.Args) < 2 {
+		fmt.Fprintln(os.Stderr, "usage: elyssim one|batch|worker|replay|selftest ...")
+		os.Exit(2)
+	}
+	switch os.Args[1] {
+	case "one":
+		cmdOne(os.Args[2:])
+	case "worker":
+		cmdWorker(os.Args[2:])
+	case "batch":
+		cmdBatch(os.Args[2:])
+	case "replay":
+		cmdReplay(os.Args[2:])
+	case "selftest":
+		cmdSelftest(os.Args[2:])
+	default:
+		fmt.Fprintln(os.Stderr, "unknown command", os.Args[1])
+		os.Exit(2)
+	}
+}
+
+func cmdOne(args []string) {
+	fs := flag.NewFlagSet("one", flag.ExitOnError)
+	profile := fs.String("profile", "C19", "")
+	tier := fs.String("tier", "quick", "")
+	seed := fs.Uint64("seed", 1, "")
+	verbose := fs.Bool("v", false, "")
+	dump := fs.String("dump", "", "write full trace here")
+	_ = fs.Parse(args)
+	res, s := runOne(*seed, *profile, *tier, *verbose, true)
+	fmt.Printf("seed=%d blocks=%d wall=%dms tx_ok=%v tx_fail=%v states=%d grams=%d trace=%s log=%s\n", res.Seed, res.Blocks, res.WallMs, res.Counters["tx_ok"], res.Counters["tx_fail"], len(res.States), len(res.Grams), res.TraceHash, res.LogHash)
+	ks := make([]string, 0)
+	for k := range res.Counters {
+		ks = append(ks, k)
+	}
+	sort.Strings(ks)
+	for _, k := range ks {
+		fmt.Printf("  %-60s %v\n", k, res.Counters[k])
+	}
+	for _, v := range res.Violations {
+		fmt.Printf("VIOLATION-RAW %s culprit=%s h=%d known=%q\n    %s\n", v.Class(), v.Culprit, v.Height, v.Known, v.Detail)
+	}
+	if res.HarnessErr != "" {
+		fmt.Println("HARNESS ERROR:", res.HarnessErr)
+	}
+	if *dump != "" && s != nil {
+		bz, _ := json.MarshalIndent(s.Trace, "", " ")
+		_ = os.WriteFile(*dump, bz, 0o644)
+	}
+}
+
+// cmdWorker runs a slice of the batch's runs and writes one JSON line per run.
+func cmdWorker(args []string) {
+	fs := flag.NewFlagSet("worker", flag.ExitOnError)
+	profile := fs.String("profile", "", "")
+	tier := fs.String("tier", "quick", "")
+	base := fs.Uint64("seed", 1, "")
+	from := fs.Int("from", 0, "")
+	step := fs.Int("step", 1, "")
+	runs := fs.Int("runs", 1, "")
+	deadline := fs.Int64("deadline", 0, "unix seconds after which no new run starts")
+	out := fs.String("out", "", "")
+	traceDir := fs.String("tracedir", "", "")
+	_ = fs.Parse(args)
+	f, err := os.Create(*out)
 	if err != nil {
-		panic(err)
+		fmt.Fprintln(os.Stderr, err)
+		os.Exit(2)
 	}
-	if err := n.InitChain(w); err != nil {
-		panic(err)
-	}
-	fmt.Println("init", time.Since(t0))
-	tm := w.Cfg.GenesisTime
-	for h := int64(1); h <= 10; h++ {
-		tm = tm.Add(5 * time.Second)
-		t1 := time.Now()
-		res := n.Apply(w, &Block{Height: h, Time: tm})
-		if res.Err != nil || res.Panic != "" {
-			fmt.Println("ERR", res.Err, res.Panic)
-			os.Exit(1)
+	defer f.Close()
+	enc := json.NewEncoder(f)
+	for i := *from; i < *runs; i += *step {
+		if *deadline > 0 && time.Now().Unix() > *deadline {
+			break
 		}
-		fmt.Printf("h=%d hash=%X dt=%v events=%d\n", h, res.AppHash[:6], time.Since(t1), len(res.Resp.Events))
+		seed := seedFor(*base, i)
+		res, s := runOne(seed, *profile, *tier, false, false)
+		if s != nil {
+			if len(res.Violations) > 0 || res.HarnessErr != "" {
+				p := filepath.Join(*traceDir, fmt.Sprintf("trace-%d.json", seed))
+				bz, _ := json.Marshal(s.Trace)
+				_ = os.WriteFile(p, bz, 0o644)
+				res.TracePath = p
+			}
+			if i < 2*(*step) {
+				res.Sample = abbreviateTrace(s.Trace, 12)
+			}
+		}
+		if err := enc.Encode(res); err != nil {
+			fmt.Fprintln(os.Stderr, err)
+			os.Exit(2)
+		}
+	}
+}
+
+func envInt(name string, def int) int {
+	if v := os.Getenv(name); v != "" {
+		if n, err := strconv.Atoi(v); err == nil {
+			return n
+		}
+	}
+	return def
+}
+
+func cmdSelftest(args []string) {
+	fs := flag.NewFlagSet("selftest", flag.ExitOnError)
+	n := fs.Int("seeds", 8, "")
+	profile := fs.String("profile", "C19", "")
+	_ = fs.Parse(args)
+	self, _ := os.Executable()
+	bad := 0
+	for i := 0; i < *n; i++ {
+		seed := seedFor(424242, i)
+		var hashes []string
+		for _, env := range [][]string{{"GOMAXPROCS=1", "TZ=UTC"}, {"GOMAXPROCS=4", "TZ=Asia/Tokyo"}, {"GOMAXPROCS=16", "TZ=America/Lima"}} {
+			cmd := exec.Command(self, "one", "-profile", *profile, "-seed", fmt.Sprint(seed))
+			cmd.Env = append(os.Environ(), env...)
+			outb, err := cmd.CombinedOutput()
+			if err != nil {
+				fmt.Println("selftest: run failed:", err, string(outb))
+				os.Exit(2)
+			}
+			first := strings.SplitN(string(outb), "\n", 2)[0]
+			idx := strings.Index(first, "tx_ok=")
+			hashes = append(hashes, first[idx:])
+		}
+		if hashes[0] != hashes[1] || hashes[1] != hashes[2] {
+			bad++
+			fmt.Printf("NONDETERMINISM seed=%d\n  %s\n  %s\n  %s\n", seed, hashes[0], hashes[1], hashes[2])
+		} else {
+			fmt.Printf("ok seed=%d %s\n", seed, hashes[0])
+		}
+	}
+	if bad > 0 {
+		os.Exit(2)
 	}
 }
